@@ -279,15 +279,25 @@ class Tr:
         self.inline = {}
         self.cur_byte = None    # Lean name standing for *p inside a string-walk loop
 
-    def fv(self, name, ty):
+    def fv(self, name, ty, local=False):
+        """parameter for a free variable.  `local`: a plain C++ local/parameter (its name carries no meaning);
+        otherwise the name is derived from a getter / field / container and says which value is read.  A local
+        whose name happens to coincide with a derived name (`seg_memory_size` the local vs `seg->get_memory_size()`)
+        must not be merged with it: it gets a suffix."""
         name = lname(name)
         if name in self.locals:
             return name
+        origin = getattr(self, "origin", None)
+        if origin is None:
+            origin = self.origin = {}
+        if name in origin and origin[name] != local:
+            name = name + ("_l" if local else "_g")
         for n, t in self.free:
             if n == name:
                 if t != ty:
                     raise Broken(f"free variable {name} used at two types {t} / {ty}")
                 return name
+        origin[name] = local
         self.free.append((name, ty))
         return name
 
@@ -367,8 +377,9 @@ class Tr:
             ct = ctype(n)
             if ct[0] == "ptr":
                 raise Broken(f"pointer variable {nm} used as a value")
-            self.renamable.add(lname(nm))        # a plain local / parameter: its name carries no meaning
-            return self.fv(nm, lean_ty(ct))
+            r = self.fv(nm, lean_ty(ct), local=True)
+            self.renamable.add(r)                # a plain local / parameter: its name carries no meaning
+            return r
         if k in ("ImplicitCastExpr", "CStyleCastExpr", "CXXStaticCastExpr", "CXXFunctionalCastExpr",
                  "CXXReinterpretCastExpr", "CXXConstCastExpr"):
             ck = n.get("castKind", "")
